@@ -714,3 +714,126 @@ pub fn record_threads(seed: u64, tier: &str, trace: &mut Vec<Value>, rep: &mut R
     rep.count("trace_runs", run as u64);
     rep.count("distinct_completion_orders", orders.len() as u64);
 }
+
+// ------------------------------------------------------------------------------------------------
+// Group "validate" (C12)
+// ------------------------------------------------------------------------------------------------
+
+fn argmax_last(v: &[f32]) -> usize {
+    let mut best = 0;
+    for i in 0..v.len() {
+        if v[i] >= v[best] {
+            best = i;
+        }
+    }
+    best
+}
+
+/// The aggregation rule of the specification (ValidateSM.tla), evaluated on the implementation's own
+/// predictions and per-sample losses.
+fn composed_validate(net: &Network, obj: &objective::Function, xs: &[&Tensor], ys: &[&Tensor], tol: f32, softmax: bool) -> (f32, f32) {
+    let mut losses = Vec::new();
+    let mut accs = Vec::new();
+    for (x, y) in xs.iter().zip(ys.iter()) {
+        let p = net.predict(x);
+        let (l, _) = obj.loss(&p, y);
+        losses.push(l);
+        let (pf, tf) = (flat(&p), flat(y));
+        accs.push(if softmax {
+            if argmax_last(&pf) == argmax_last(&tf) { 1.0 } else { 0.0 }
+        } else if tf.len() == 1 {
+            if (pf[0] - tf[0]).abs() < tol { 1.0 } else { 0.0 }
+        } else {
+            tf.iter().zip(pf.iter()).map(|(t, p)| if (t - p).abs() < tol { 1.0f32 } else { 0.0 }).sum::<f32>() / tf.len() as f32
+        });
+    }
+    (losses.iter().sum::<f32>() / losses.len() as f32, accs.iter().sum::<f32>() / accs.len() as f32)
+}
+
+pub fn replay_validate(case: &Value, rep: &mut Report, rng: &mut Rng) {
+    let ds = &case["ds"];
+    let (n, len) = (usize_of(ds, "n"), usize_of(ds, "len"));
+    let rule = str_of(ds, "rule");
+    let tol = ds["tol2"].as_i64().unwrap() as f32 / 2.0;
+    let obj_name = str_of(ds, "obj");
+    let id = format!("validate:n{}len{}{}tol{}{}seed{}", n, len, rule, tol, obj_name, ds["seed"]);
+    let softmax = rule == "argmax";
+    let arch = json!({"input": [len], "layers": [{"kind": "dense", "out": len, "act": if softmax { "softmax" } else { "linear" }, "bias": false}],
+                      "objective": {"kind": obj_name}});
+    let mut net = nets::build(&arch);
+    if let neurons::network::Layer::Dense(d) = &mut net.layers[0] {
+        let eye: Vec<Vec<f32>> = (0..len).map(|i| (0..len).map(|j| if i == j { 1.0 } else { 0.0 }).collect()).collect();
+        verif::set_dense(d, eye, None);
+    }
+    let xs: Vec<Tensor> = ds["preds"].as_array().unwrap().iter().map(|p| Tensor::single(vec1(p))).collect();
+    let ys: Vec<Tensor> = ds["targets"].as_array().unwrap().iter().map(|p| Tensor::single(vec1(p))).collect();
+    let (xr, yr) = (refs(&xs), refs(&ys));
+    rep.nontrivial(id.clone());
+
+    // the order in which results are collected is the input order (model: InOrder)
+    if usizes(&case["order"]) != (1..=n).collect::<Vec<usize>>() {
+        panic!("harness: specification emitted a non-identity collection order");
+    }
+
+    rep.checks += 3;
+    let obj = objective::Function::create(nets::objective_kind(obj_name), None);
+    match guarded(|| (net.validate(&xr, &yr, tol), net.predict_batch(&xr))) {
+        Err(msg) => rep.mismatch("C12", "validate_or_predict_batch_panicked", &id, json!({"panic": msg}), case),
+        Ok(((loss, acc), batch)) => {
+            let want_acc = num(&case["acc"]);
+            if acc.to_bits() != want_acc.to_bits() {
+                rep.mismatch("C12", "accuracy", &id, json!({"expected": want_acc, "observed": acc, "rule": rule, "tol": tol}), case);
+            }
+            if !softmax {
+                let want_loss = num(&case["loss"]);
+                if loss.to_bits() != want_loss.to_bits() {
+                    rep.mismatch("C12", "mean_loss", &id, json!({"expected": want_loss, "observed": loss}), case);
+                }
+            } else {
+                let (cl, _) = composed_validate(&net, &obj, &xr, &yr, tol, true);
+                if !close(loss, cl, 1e-6) {
+                    rep.mismatch("C12", "mean_loss", &id, json!({"expected": cl, "observed": loss}), case);
+                }
+            }
+            if batch.len() != n {
+                rep.mismatch("C12", "predict_batch_length", &id, json!({"expected": n, "observed": batch.len()}), case);
+            } else {
+                for i in 0..n {
+                    let single = net.predict(xr[i]);
+                    let (_, post, _, _) = net.forward(xr[i]);
+                    if nets::tensor_bits(&batch[i]) != nets::tensor_bits(&single)
+                        || nets::tensor_bits(&single) != nets::tensor_bits(post.last().unwrap())
+                        || (!softmax && diff_flat_exact(&flat(&batch[i]), &flat(&xs[i])).is_some())
+                    {
+                        rep.mismatch("C12", "predict_batch_element_or_order", &id, json!({"index": i}), case);
+                        break;
+                    }
+                }
+            }
+        }
+    }
+
+    // Generic networks: validate / predict_batch against the same aggregation composed from the
+    // implementation's own predict and objective (float data, every objective family).
+    let archs = architectures();
+    let arch = &archs[(n + len) % archs.len()];
+    let mut g = nets::build(arch);
+    init_params(&mut g, arch, rng);
+    let data = arch_dataset(arch, n, rng);
+    let (gx, gy) = (refs(&data.inputs), refs(&data.targets));
+    let gobj = objective::Function::create(nets::objective_kind(str_of(&arch["objective"], "kind")), None);
+    let last_softmax = arch["layers"].as_array().unwrap().last().unwrap()["act"] == "softmax";
+    rep.checks += 2;
+    match guarded(|| (g.validate(&gx, &gy, tol), g.predict_batch(&gx))) {
+        Err(msg) => rep.mismatch("C12", "validate_or_predict_batch_panicked", &id, json!({"panic": msg, "arch": arch["name"]}), case),
+        Ok(((loss, acc), batch)) => {
+            let (cl, ca) = composed_validate(&g, &gobj, &gx, &gy, tol, last_softmax);
+            if !close(loss, cl, 1e-6) || !close(acc, ca, 1e-6) {
+                rep.mismatch("C12", "generic_network_aggregation", &id, json!({"arch": arch["name"], "loss": [loss, cl], "acc": [acc, ca]}), case);
+            }
+            if batch.len() != n || (0..n.min(batch.len())).any(|i| nets::tensor_bits(&batch[i]) != nets::tensor_bits(&g.predict(gx[i]))) {
+                rep.mismatch("C12", "predict_batch_element_or_order", &id, json!({"arch": arch["name"]}), case);
+            }
+        }
+    }
+}
